@@ -326,6 +326,17 @@ def _load_baseline():
         return json.load(f)
 
 
+def native(script, timeout=900):
+    """run a witness script natively (real numpy / numba, /repo/src) in a scratch directory; returns its stdout.
+    The script must print CONFIRMED or NOT-CONFIRMED; anything else is a checker error, never a verdict."""
+    with tempfile.TemporaryDirectory(prefix="pyvc_native_") as scratch:
+        p = subprocess.run([NATIVE_PY, "-c", script], capture_output=True, text=True, timeout=timeout, cwd=scratch,
+                           env=dict(os.environ, PYTHONPATH=os.path.join(loader.REPO, "src")))
+    if "CONFIRMED" not in p.stdout:
+        raise RuntimeError("native witness produced no verdict:\n" + (p.stdout + p.stderr)[-2000:])
+    return p.stdout
+
+
 def _is_harness_obj(obj):
     if obj is None:
         return False
